@@ -213,12 +213,14 @@ def archive_family(pid, cfgs, mode, emit, rule, note, level="model_checking", as
     finish(pid, level, cov, rep["violations"] or [], assumptions=assumptions or [], inconclusive=rep.get("inconclusive") or None)
 
 
-def arch_cfgs():
-    return ["Archive_A", "Archive_B", "Archive_C"] if tier() == "quick" else ["Archive_A", "Archive_B", "Archive_C", "Archive_Big", "Archive_A4"]
+def arch_cfgs(big_in_quick=False):
+    # Archive_Big: 16 KiB blocks (skips longer than any scratch buffer, multi-byte length prefixes)
+    quick = ["Archive_A", "Archive_B", "Archive_C"] + (["Archive_Big"] if big_in_quick else [])
+    return quick if tier() == "quick" else ["Archive_A", "Archive_B", "Archive_C", "Archive_Big", "Archive_A4"]
 
 
 def check_C03():
-    archive_family("C03", arch_cfgs(), "idx", "Idx",
+    archive_family("C03", arch_cfgs(big_in_quick=True), "idx", "Idx",
                    ARCH_RULE % (3, "two 6-8 block alphabets (equal multihash/other codec, equal digest under 3 hash functions, CIDv0, identity, 20/32/64-byte digests, 204-byte CID, varint boundaries)") +
                    "for each: GenerateIndex / LoadIndex(insertion) / GenerateIndexFromFile / ReadOrGenerateIndex x {bytes.Reader, *os.File, plain io.Reader} x both codecs + insertion index x "
                    "StoreIdentityCIDs x MaxIndexCidSize {default, 64}; GetAll/GetFirst for 13 probe CIDs are compared with the specification's IndexOffsets, every offset is decoded from the "
@@ -311,7 +313,7 @@ def check_C01():
                                          "traces_validated_against_impl": srep["evaluations"]}, srep["violations"])
     global _c01_store
     _c01_store = srep
-    archive_family("C01", arch_cfgs(), "scan", "Scan",
+    archive_family("C01", arch_cfgs(big_in_quick=True), "scan", "Scan",
                    ARCH_RULE % (3, "the same alphabets") +
                    "read side: v2 BlockReader (seekable and plain source), v2 Reader (DataReader/IndexReader/Roots), root-module CarReader and LoadCar, internal CARv1 reader and loader must return the "
                    "specification's roots and (CID, bytes) sequence; write side (store-replay with payload comparison, see counters): every writer's payload equals the reference encoding",
